@@ -196,7 +196,7 @@ func cmdCheck(args []string) int {
 				idx = append(idx, i)
 			}
 		}
-		if len(again) == 0 || (attempt == 2 && *tier != "thorough") {
+		if len(again) == 0 || (attempt == 2 && *tier != "thorough" && len(again) > 3) {
 			break
 		}
 		if len(again) > 8 && *tier != "thorough" {
@@ -205,8 +205,13 @@ func cmdCheck(args []string) int {
 		o2 := opts
 		o2.Timeout = opts.Timeout * 3
 		o2.Parallel = 3
-		if attempt == 2 {
+		if attempt == 2 && *tier == "thorough" {
 			o2.Seed = seed + 7919
+		}
+		if attempt == 2 && *tier != "thorough" {
+			// last rung of the quick tier: a handful of still undecided obligations get nine times the budget
+			// (solver jitter under load must not turn into an alarm; default seeds, so nothing depends on luck)
+			o2.Timeout = opts.Timeout * 9
 		}
 		res := engine.DischargeAll(again, o2)
 		for k, r := range res {
